@@ -64,6 +64,7 @@ def _scalar_entry(name, sig_re, new_sig, token_stmt_re, label, token_spec, extra
          rewrites=list(extra_rw),
          proofs=[dict(before_re=token_stmt_re, ghost=True, text='let ghost t_before = self.out.text();'),
                  dict(after_re=token_stmt_re, label=label, text='assert(self.out.text() =~= t_before + %s);' % token_spec)],
+         requires=[('indent_fits', 'old(self).indent_step * old(self).depth <= usize::MAX')],
          ensures=[('writes_one_scalar', 'true')])
 ITEMS += [_helper('write_space_if_pending'), _helper('write_scalar_prefix_if_anchor'), _helper('write_indent'), _helper('write_end_of_scalar'),
     _scalar_entry('serialize_bool', r'fn serialize_bool\(self, v: bool\) -> Result<\(\)>', 'fn serialize_bool(&mut self, v: bool) -> Result<(), SerError>',
@@ -106,7 +107,9 @@ ITEMS += [
                   ('frame', '''final(self).pending_space_after_colon == old(self).pending_space_after_colon && final(self).pending_anchor_id == old(self).pending_anchor_id
                         && final(self).pending_inline_map == old(self).pending_inline_map && final(self).after_dash_depth == old(self).after_dash_depth
                         && final(self).current_map_depth == old(self).current_map_depth && final(self).depth == old(self).depth
-                        && final(self).compact_list_indent == old(self).compact_list_indent && final(self).last_value_was_block == old(self).last_value_was_block''')],
+                        && final(self).compact_list_indent == old(self).compact_list_indent && final(self).last_value_was_block == old(self).last_value_was_block
+                        && final(self).indent_step == old(self).indent_step && final(self).doc_started == old(self).doc_started && final(self).in_flow == old(self).in_flow
+                        && final(self).inline_map_after_dash == old(self).inline_map_after_dash''')],
          canaries=['value']),
     dict(src=SR, path='struct SeqSer'),
     dict(src=SR, path='enum TupleKind', derive='#[derive(Clone, Copy, PartialEq, Eq)]'),
@@ -133,7 +136,7 @@ ITEMS += [
     dict(src=SR, path='impl Serializer for &mut YamlSerializer/fn serialize_seq', id='YamlSerializer::serialize_seq#block_open', props=['C20', 'C12', 'C01'],
          impl_header="impl<'b> YamlSerializer<'b>",
          fragment=r'let was_inline_value = !self\.at_line_start;.*Ok\(SeqSer \{[^}]*\}\)', fragment_flags='S',
-         wrapper="fn seq_open_block<'a>(&'a mut self) -> Result<SeqSer<'a, 'b>, SerError> { {FRAG} }",
+         wrapper="fn seq_open_block<'a>(&'a mut self, _len: Option<usize>) -> Result<SeqSer<'a, 'b>, SerError> { {FRAG} }",
          requires=[('assumed:nesting_depth_below_usize_max', '''old(self).depth < usize::MAX && (old(self).after_dash_depth is Some ==> old(self).after_dash_depth->0 < usize::MAX)
                         && (old(self).current_map_depth is Some ==> old(self).current_map_depth->0 < usize::MAX)''')],
          ensures=[('C20:opening_a_block_sequence_writes_no_line_break_of_its_own_so_an_empty_one_stays_on_the_line_of_its_key', '''r is Ok && old(self).pending_anchor_id is None ==> ({ let q = r->Ok_0;
@@ -144,4 +147,224 @@ ITEMS += [
                   ('C12:items_under_a_dash_are_indented_one_level_deeper_than_that_dash', '''r is Ok && !old(self).at_line_start && old(self).after_dash_depth is Some && !old(self).pending_space_after_colon
                         ==> r->Ok_0.depth == old(self).after_dash_depth->0 + 1''')],
          canaries=['C20:opening_a_block_sequence_writes_no_line_break_of_its_own_so_an_empty_one_stays_on_the_line_of_its_key']),
+]
+
+# ---- the dash / comma in front of a sequence item (C12 "sequence item", C20), the flow opening of serialize_seq and the two flow-hint readers.
+# `write_indent` is verified in unit `quoting` (YamlSerializer::write_indent); here the part of that contract the dash needs is assumed. ----
+def _replace_item(path, new):
+    for i, x in enumerate(ITEMS):
+        if x.get('path') == path and x.get('trusted'):
+            ITEMS[i] = new; return
+    raise KeyError(path)
+_LAYOUT_FRAME = '''final(self).pending_anchor_id == old(self).pending_anchor_id && final(self).pending_inline_map == old(self).pending_inline_map
+                        && final(self).after_dash_depth == old(self).after_dash_depth && final(self).current_map_depth == old(self).current_map_depth
+                        && final(self).depth == old(self).depth && final(self).indent_step == old(self).indent_step && final(self).in_flow == old(self).in_flow
+                        && final(self).inline_map_after_dash == old(self).inline_map_after_dash'''
+_replace_item('impl YamlSerializer/fn write_space_if_pending',
+    dict(src=SR, path='impl YamlSerializer/fn write_space_if_pending', props=['C12', 'C20', 'C01'],
+         rewrites=[(r'-> Result<\(\)>', '-> Result<(), SerError>', 1, 'R6')],
+         ensures=[('C12:the_space_after_a_colon_is_written_once_when_the_value_arrives',
+                   "r is Ok ==> final(self).out.text() == (if old(self).pending_space_after_colon { old(self).out.text().push(' ') } else { old(self).out.text() }) && !final(self).pending_space_after_colon"),
+                  ('frame', 'final(self).at_line_start == old(self).at_line_start && (r is Ok ==> !final(self).last_value_was_block) && final(self).doc_started == old(self).doc_started && ' + _LAYOUT_FRAME)],
+         canaries=['C12:the_space_after_a_colon_is_written_once_when_the_value_arrives']))
+_replace_item('impl YamlSerializer/fn write_indent',
+    dict(src=SR, path='impl YamlSerializer/fn write_indent', trusted=True, props=[],
+         rewrites=[(r'-> Result<\(\)>', '-> Result<(), SerError>', 1, 'R6')],
+         requires=[('indent_fits', 'old(self).indent_step * depth <= usize::MAX')],
+         # assumed here, PROVED in unit `quoting` (item YamlSerializer::write_indent: frame, nothing_is_written_in_the_middle_of_a_line,
+         # C20:the_yaml_directive_is_followed_by_a_document_start_marker_and_then_only_the_indentation)
+         ensures=[('assumed:proved_in_unit_quoting', '''r is Ok ==> !final(self).at_line_start && final(self).pending_space_after_colon == old(self).pending_space_after_colon
+                        && (!old(self).at_line_start ==> final(self).out.text() == old(self).out.text())
+                        && (old(self).at_line_start && old(self).doc_started ==> final(self).out.text() == old(self).out.text() + spaces(old(self).indent_step * depth))'''),
+                  ('assumed:frame', _LAYOUT_FRAME)]))
+_replace_item('impl YamlSerializer/fn write_scalar_prefix_if_anchor',
+    dict(src=SR, path='impl YamlSerializer/fn write_scalar_prefix_if_anchor', trusted=True, props=[],
+         rewrites=[(r'-> Result<\(\)>', '-> Result<(), SerError>', 1, 'R6')],
+         # assumed (its body writes `&name ` in front of a scalar when an anchor is staged): the layout hints are not touched
+         ensures=[('assumed:frame', 'final(self).depth == old(self).depth && final(self).indent_step == old(self).indent_step && final(self).in_flow == old(self).in_flow')]))
+ITEMS += [
+    dict(src=SR, path='impl YamlSerializer/fn take_flow_for_seq', props=['C20', 'C01'],
+         ensures=[('C20:a_sequence_is_flow_inside_a_flow_collection_and_otherwise_exactly_when_the_flow_sequence_wrapper_staged_it',
+                   'r == (old(self).in_flow > 0 || old(self).pending_flow == Some(PendingFlow::AnySeq))'),
+                  ('C20:a_staged_flow_hint_is_used_once', 'old(self).in_flow == 0 ==> final(self).pending_flow is None'),
+                  ('frame', 'final(self).in_flow == old(self).in_flow && final(self).out.text() == old(self).out.text()')],
+         canaries=['C20:a_sequence_is_flow_inside_a_flow_collection_and_otherwise_exactly_when_the_flow_sequence_wrapper_staged_it']),
+    dict(src=SR, path='impl YamlSerializer/fn take_flow_for_map', props=['C20', 'C01'],
+         ensures=[('C20:a_mapping_is_flow_inside_a_flow_collection_and_otherwise_exactly_when_the_flow_mapping_wrapper_staged_it',
+                   'r == (old(self).in_flow > 0 || old(self).pending_flow == Some(PendingFlow::AnyMap))'),
+                  ('C20:a_staged_flow_hint_is_used_once', 'old(self).in_flow == 0 ==> final(self).pending_flow is None'),
+                  ('frame', 'final(self).in_flow == old(self).in_flow && final(self).out.text() == old(self).out.text()')],
+         canaries=['C20:a_mapping_is_flow_inside_a_flow_collection_and_otherwise_exactly_when_the_flow_mapping_wrapper_staged_it']),
+    dict(src=SR, path='impl Serializer for &mut YamlSerializer/fn serialize_seq', id='YamlSerializer::serialize_seq#flow_open', props=['C20', 'C12', 'C01'],
+         impl_header="impl<'b> YamlSerializer<'b>",
+         fragment=r'self\.write_scalar_prefix_if_anchor\(\)\?;.*?Ok\(SeqSer \{[^}]*\}\)', fragment_flags='S',
+         wrapper="fn seq_open_flow<'a>(&'a mut self, _len: Option<usize>) -> Result<SeqSer<'a, 'b>, SerError> { {FRAG} }",
+         requires=[('indent_fits', 'old(self).indent_step * old(self).depth <= usize::MAX')],
+         proofs=[dict(at='start', text='reveal_strlit("[");')],
+         ensures=[('C20:a_flow_sequence_opens_with_its_bracket_in_the_middle_of_a_line_and_expects_its_first_item',
+                   '''r is Ok ==> ({ let q = r->Ok_0; let t = q.ser.out.text(); t.len() > 0 && t.last() == '[' && q.flow && q.first && !q.ser.at_line_start
+                        && !q.ser.pending_space_after_colon })''')],
+         canaries=['C20:a_flow_sequence_opens_with_its_bracket_in_the_middle_of_a_line_and_expects_its_first_item']),
+    dict(src=SR, path='impl SerializeSeq for SeqSer/fn serialize_element', id='SeqSer::serialize_element#flow_comma', props=['C20', 'C12', 'C01'],
+         impl_header="impl<'a, 'b> SeqSer<'a, 'b>",
+         fragment=r'(?<=if self\.flow \{)\s*if !self\.first \{[^}]*\}', fragment_flags='S',
+         wrapper='fn seq_element_flow_comma(&mut self) -> Result<(), SerError> { {FRAG} Ok(()) }',
+         proofs=[dict(at='start', text='reveal_strlit(", ");')],
+         ensures=[('C20:items_of_a_flow_sequence_are_separated_by_a_comma_and_a_space_and_the_first_follows_the_bracket',
+                   "r is Ok ==> final(self).ser.out.text() =~= (if old(self).first { old(self).ser.out.text() } else { old(self).ser.out.text().push(',').push(' ') })")],
+         canaries=['C20:items_of_a_flow_sequence_are_separated_by_a_comma_and_a_space_and_the_first_follows_the_bracket']),
+    dict(src=SR, path='impl SerializeSeq for SeqSer/fn serialize_element', id='SeqSer::serialize_element#block_dash', props=['C12', 'C20', 'C01'],
+         impl_header="impl<'a, 'b> SeqSer<'a, 'b>",
+         fragment=r'if self\.first && self\.ser\.pending_space_after_colon \{.*?self\.ser\.pending_inline_map = true;', fragment_flags='S',
+         wrapper='fn seq_element_block_dash(&mut self) -> Result<(), SerError> { {FRAG} Ok(()) }',
+         requires=[('indent_fits', 'old(self).ser.indent_step * old(self).depth <= usize::MAX')],
+         proofs=[dict(at='start', text='reveal_strlit("- ");')],
+         ensures=[('C12:the_first_dash_of_a_sequence_in_mapping_value_position_starts_a_line_of_its_own',
+                   '''r is Ok && old(self).first && old(self).ser.pending_space_after_colon && !old(self).ser.at_line_start && !old(self).ser.pending_inline_map && old(self).ser.doc_started
+                        ==> final(self).ser.out.text() =~= old(self).ser.out.text().push('\\n') + spaces(old(self).ser.indent_step * old(self).depth) + seq!['-', ' ']'''),
+                  ('C12:every_later_dash_starts_at_the_column_of_the_sequence',
+                   '''r is Ok && !old(self).first && old(self).ser.at_line_start && old(self).ser.doc_started
+                        ==> final(self).ser.out.text() =~= old(self).ser.out.text() + spaces(old(self).ser.indent_step * old(self).depth) + seq!['-', ' ']'''),
+                  ('C12:after_a_dash_the_item_continues_on_the_same_line_and_knows_the_column_of_its_dash',
+                   '''r is Ok ==> !final(self).ser.at_line_start && final(self).ser.after_dash_depth == Some(old(self).depth) && final(self).ser.pending_inline_map
+                        && (old(self).first ==> !final(self).ser.pending_space_after_colon) && final(self).depth == old(self).depth && final(self).first == old(self).first''')],
+         canaries=['C12:every_later_dash_starts_at_the_column_of_the_sequence']),
+]
+
+# ---- mappings: the opening (`serialize_map`, flow and block prologue over the real `MapSer`), a scalar key of a block mapping, the commas of a flow
+# mapping, and the whole of `MapSer::serialize_value` with the generic `value.serialize(..)` as an opaque call (C12 "mapping value" / "mapping key", C20) ----
+SUBST += [(r"MapSer<'a, 'b, W: Write>", "MapSer<'a, 'b>"), (r"MapSer<'a, 'b, W>", "MapSer<'a, 'b>")]
+_MAP = 'impl SerializeMap for MapSer/'
+ITEMS += [
+    dict(src=SR, path='struct MapSer'),
+    dict(src=SR, path='impl Serializer for &mut YamlSerializer/fn serialize_map', id='YamlSerializer::serialize_map#flow_open', props=['C20', 'C12', 'C01'],
+         impl_header="impl<'b> YamlSerializer<'b>",
+         fragment=r'self\.write_scalar_prefix_if_anchor\(\)\?;.*?Ok\(MapSer \{[^}]*\}\)', fragment_flags='S',
+         wrapper="fn map_open_flow<'a>(&'a mut self, _len: Option<usize>) -> Result<MapSer<'a, 'b>, SerError> { {FRAG} }",
+         requires=[('indent_fits', 'old(self).indent_step * old(self).depth <= usize::MAX')],
+         proofs=[dict(at='start', text='reveal_strlit("{");')],
+         ensures=[('C20:a_flow_mapping_opens_with_its_brace_in_the_middle_of_a_line_and_expects_its_first_entry',
+                   '''r is Ok ==> ({ let q = r->Ok_0; let t = q.ser.out.text(); t.len() > 0 && t.last() == '{' && q.flow && q.first && !q.ser.at_line_start
+                        && !q.ser.pending_space_after_colon && !q.inline_value_start && !q.align_after_dash })''')],
+         canaries=['C20:a_flow_mapping_opens_with_its_brace_in_the_middle_of_a_line_and_expects_its_first_entry']),
+    dict(src=SR, path='impl Serializer for &mut YamlSerializer/fn serialize_map', id='YamlSerializer::serialize_map#block_open', props=['C12', 'C20', 'C01'],
+         impl_header="impl<'b> YamlSerializer<'b>",
+         fragment=r'let inline_first = self\.pending_inline_map;.*Ok\(MapSer \{[^}]*\}\)', fragment_flags='S',
+         wrapper="fn map_open_block<'a>(&'a mut self, _len: Option<usize>) -> Result<MapSer<'a, 'b>, SerError> { {FRAG} }",
+         requires=[('assumed:nesting_depth_below_usize_max', '''old(self).depth < usize::MAX && (old(self).after_dash_depth is Some ==> old(self).after_dash_depth->0 < usize::MAX)
+                        && (old(self).current_map_depth is Some ==> old(self).current_map_depth->0 < usize::MAX)''')],
+         ensures=[('C12:a_mapping_known_to_have_entries_never_starts_on_the_line_of_the_key_it_is_the_value_of',
+                   '''r is Ok && old(self).pending_space_after_colon && !old(self).pending_inline_map && (_len is Some && _len->0 > 0)
+                        ==> ({ let q = r->Ok_0; q.ser.at_line_start && !q.ser.pending_space_after_colon && !q.inline_value_start })'''),
+                  ('C12:a_mapping_of_unknown_size_in_value_position_breaks_the_line_at_its_first_key_or_at_once',
+                   '''r is Ok && old(self).pending_space_after_colon && !old(self).pending_inline_map && _len is None
+                        ==> ({ let q = r->Ok_0; q.inline_value_start || (q.ser.at_line_start && !q.ser.pending_space_after_colon) })'''),
+                  ('C12:the_first_key_of_a_mapping_under_a_dash_stays_on_the_line_of_the_dash_and_later_keys_align_under_it',
+                   '''r is Ok && old(self).pending_inline_map ==> ({ let q = r->Ok_0; q.align_after_dash && q.ser.inline_map_after_dash && !q.ser.pending_inline_map
+                        && q.depth == (match old(self).after_dash_depth { Some(d) => d, None => old(self).depth }) + 1 })'''),
+                  ('C12:keys_of_a_mapping_in_value_position_are_one_level_deeper_than_the_mapping_it_belongs_to',
+                   '''r is Ok && !old(self).pending_inline_map ==> r->Ok_0.depth == (if old(self).pending_space_after_colon {
+                            (match old(self).current_map_depth { Some(d) => d, None => old(self).depth }) + 1 } else { old(self).depth as int }) && !r->Ok_0.align_after_dash'''),
+                  ('shape', 'r is Ok ==> !r->Ok_0.flow && r->Ok_0.first && !r->Ok_0.last_key_complex')],
+         canaries=['C12:a_mapping_known_to_have_entries_never_starts_on_the_line_of_the_key_it_is_the_value_of']),
+    dict(src=SR, path=_MAP + 'fn serialize_key', id='MapSer::serialize_key#flow_comma', props=['C20', 'C12', 'C01'],
+         impl_header="impl<'a, 'b> MapSer<'a, 'b>",
+         fragment=r'(?<=if self\.flow \{)\s*if !self\.first \{[^}]*\}', fragment_flags='S',
+         wrapper='fn map_key_flow_comma(&mut self) -> Result<(), SerError> { {FRAG} Ok(()) }',
+         proofs=[dict(at='start', text='reveal_strlit(", ");')],
+         ensures=[('C20:entries_of_a_flow_mapping_are_separated_by_a_comma_and_a_space_and_the_first_follows_the_brace',
+                   "r is Ok ==> final(self).ser.out.text() =~= (if old(self).first { old(self).ser.out.text() } else { old(self).ser.out.text().push(',').push(' ') })")],
+         canaries=['C20:entries_of_a_flow_mapping_are_separated_by_a_comma_and_a_space_and_the_first_follows_the_brace']),
+    dict(src=SR, path=_MAP + 'fn serialize_key', id='MapSer::serialize_key#block_before_key', props=['C12', 'C20', 'C01'],
+         impl_header="impl<'a, 'b> MapSer<'a, 'b>",
+         fragment=r'if self\.inline_value_start \{.*?self\.ser\.pending_inline_map = false;', fragment_flags='S',
+         wrapper='fn map_key_block_before(&mut self) -> Result<(), SerError> { {FRAG} Ok(()) }',
+         ensures=[('C12:the_first_key_of_a_mapping_that_waited_on_the_line_of_its_parent_key_moves_to_a_new_line',
+                   '''r is Ok && old(self).inline_value_start ==> final(self).ser.at_line_start && !final(self).ser.pending_space_after_colon && !final(self).inline_value_start
+                        && final(self).ser.out.text() == (if old(self).ser.at_line_start { old(self).ser.out.text() } else { old(self).ser.out.text().push('\\n') })'''),
+                  ('C12:a_new_key_forgets_the_inline_hints_of_the_previous_entry', 'r is Ok ==> final(self).ser.after_dash_depth is None && !final(self).ser.pending_inline_map'),
+                  ('frame', 'final(self).depth == old(self).depth && final(self).align_after_dash == old(self).align_after_dash && final(self).ser.indent_step == old(self).ser.indent_step')],
+         canaries=['C12:the_first_key_of_a_mapping_that_waited_on_the_line_of_its_parent_key_moves_to_a_new_line']),
+    dict(src=SR, path=_MAP + 'fn serialize_key', id='MapSer::serialize_key#block_scalar_key', props=['C12', 'C20', 'C01'],
+         impl_header="impl<'a, 'b> MapSer<'a, 'b>",
+         fragment=r'(?<=Ok\(text\) => \{).*?self\.last_key_complex = false;', fragment_flags='S',
+         wrapper='fn map_key_block_scalar(&mut self, text: String) -> Result<(), SerError> { {FRAG} Ok(()) }',
+         pre_rewrites=[(r'write_str\(&text\)', 'write_str(text.as_str())', None, 'R8')],
+         loop_rewrites=[(1, 'range')],
+         requires=[('indent_fits', 'old(self).ser.indent_step * old(self).depth <= usize::MAX')],
+         proofs=[dict(at='start', ghost=True, text='let ghost t0 = self.ser.out.text();'),
+                 dict(at='start', text='''reveal_strlit("  "); reveal_strlit(":"); assert(spaces(0) =~= Seq::<char>::empty());
+                      let st = self.ser.indent_step as int; let d0 = self.depth as int; let b0 = if d0 >= 1 { d0 - 1 } else { 0int };
+                      assert(st * b0 <= st * d0) by(nonlinear_arith) requires 0 <= b0 <= d0, st >= 0;'''),
+                 dict(after_re=r'let _\w* = __i1; __i1 \+= 1;', text="assert(spaces(__i1 as int) =~= spaces(__i1 as int - 1).push(' '));")],
+         loops={1: dict(invariant=[('spaces_so_far', '''__i1 <= __n1 && __n1 == old(self).ser.indent_step * (if old(self).depth >= 1 { old(self).depth - 1 } else { 0 })
+                        && self.ser.out.text() =~= t0 + spaces(__i1 as int) && self.depth == old(self).depth && self.ser.indent_step == old(self).ser.indent_step''')],
+                        decreases='__n1 - __i1')},
+         ensures=[('C12:a_key_of_a_block_mapping_starts_at_the_column_of_its_mapping_and_is_followed_by_a_colon',
+                   '''r is Ok && old(self).ser.at_line_start && !old(self).align_after_dash && old(self).ser.doc_started
+                        ==> final(self).ser.out.text() =~= old(self).ser.out.text() + spaces(old(self).ser.indent_step * old(self).depth) + text@ + seq![':']'''),
+                  ('C12:later_keys_of_a_mapping_that_started_after_a_dash_are_aligned_two_columns_right_of_that_dash',
+                   '''r is Ok && old(self).ser.at_line_start && old(self).align_after_dash
+                        ==> final(self).ser.out.text() =~= old(self).ser.out.text() + spaces(old(self).ser.indent_step * (if old(self).depth >= 1 { old(self).depth - 1 } else { 0 })) + seq![' ', ' '] + text@ + seq![':']'''),
+                  ('C12:a_key_in_the_middle_of_a_line_is_written_where_the_line_stands',
+                   'r is Ok && !old(self).ser.at_line_start ==> final(self).ser.out.text() =~= old(self).ser.out.text() + text@ + seq![\':\']'),
+                  ('C12:the_space_after_the_colon_is_deferred_until_the_value_is_known',
+                   'r is Ok ==> final(self).ser.pending_space_after_colon && !final(self).ser.at_line_start && !final(self).last_key_complex')],
+         canaries=['C12:a_key_of_a_block_mapping_starts_at_the_column_of_its_mapping_and_is_followed_by_a_colon']),
+]
+ITEMS += [
+    dict(src=SR, path=_MAP + 'fn serialize_value', id='MapSer::serialize_value#whole', props=['C12', 'C20', 'C01'],
+         impl_header="impl<'a, 'b> MapSer<'a, 'b>",
+         fragment=r'(?<=fn serialize_value<T: \?Sized \+ Serialize>\(&mut self, value: &T\) -> Result<\(\)> \{).*(?=\}\s*$)', fragment_flags='S',
+         wrapper='fn map_value_whole(&mut self, value: &SerVal) -> Result<(), SerError> { {FRAG} }',
+         # the generic calls `value.serialize(..)` become opaque calls that may do anything to the serializer (R8)
+         pre_rewrites=[(r'self\.ser\.with_in_flow\(\|s\| value\.serialize\(s\)\)\?;', 'ser_value_in_flow(value, &mut *self.ser)?;', 1, 'R8'),
+                       (r'value\.serialize\(&mut \*self\.ser\)', 'ser_value(value, &mut *self.ser)', 1, 'R8')],
+         loop_rewrites=[(1, 'range')],
+         requires=[('indent_fits', 'old(self).ser.indent_step * old(self).depth <= usize::MAX')],
+         proofs=[dict(at='start', text='''reveal_strlit("  "); reveal_strlit(":");
+                      let st = self.ser.indent_step as int; let d0 = self.depth as int; let b0 = if d0 >= 1 { d0 - 1 } else { 0int };
+                      assert(st * b0 <= st * d0) by(nonlinear_arith) requires 0 <= b0 <= d0, st >= 0;'''),
+                 dict(before_re=r'let result = ser_value\(value, &mut \*self\.ser\);', label='C12:while_a_value_is_written_the_serializer_knows_the_depth_of_the_mapping_the_value_belongs_to',
+                      text='assert(self.ser.current_map_depth == Some(self.depth) && self.depth == old(self).depth);')],
+         loops={1: dict(invariant=[('frame', '''__i1 <= __n1 && self.depth == old(self).depth && self.ser.indent_step == old(self).ser.indent_step && self.flow == old(self).flow
+                        && self.last_key_complex == old(self).last_key_complex && self.ser.current_map_depth == old(self).ser.current_map_depth
+                        && self.ser.pending_inline_map == old(self).ser.pending_inline_map && self.ser.depth == old(self).ser.depth
+                        && saved_depth == old(self).ser.depth && saved_pending_inline_map == old(self).ser.pending_inline_map''')],
+                        decreases='__n1 - __i1')},
+         ensures=[('C12:after_a_value_the_layout_hints_of_the_enclosing_mapping_are_restored',
+                   '''!old(self).flow ==> final(self).ser.current_map_depth == old(self).ser.current_map_depth && final(self).ser.pending_inline_map == old(self).ser.pending_inline_map
+                        && (r is Ok && old(self).last_key_complex ==> final(self).ser.depth == old(self).ser.depth && !final(self).last_key_complex)'''),
+                  ('C12:after_its_first_value_a_mapping_is_no_longer_empty', 'r is Ok ==> !final(self).first && final(self).depth == old(self).depth && final(self).flow == old(self).flow')],
+         canaries=['C12:after_a_value_the_layout_hints_of_the_enclosing_mapping_are_restored']),
+]
+
+# ---- struct variants: a field after its key text has been computed (the generic `value.serialize(..)` is an opaque call), and the end ----
+SUBST += [(r"StructVariantSer<'a, 'b, W: Write>", "StructVariantSer<'a, 'b>")]
+ITEMS += [
+    dict(src=SR, path='struct StructVariantSer'),
+    dict(src=SR, path='impl SerializeStructVariant for StructVariantSer/fn serialize_field', id='StructVariantSer::serialize_field#after_key', props=['C12', 'C20', 'C01'],
+         impl_header="impl<'a, 'b> StructVariantSer<'a, 'b>",
+         fragment=r'if self\.flow \{.*(?=\}\s*$)', fragment_flags='S',
+         wrapper='fn struct_variant_field_after_key(&mut self, text: String, value: &SerVal) -> Result<(), SerError> { {FRAG} }',
+         pre_rewrites=[(r'write_str\(&text\)', 'write_str(text.as_str())', None, 'R8'),
+                       (r'value\.serialize\(&mut \*self\.ser\)', 'ser_value(value, &mut *self.ser)', None, 'R8')],
+         requires=[('indent_fits', 'old(self).ser.indent_step * old(self).depth <= usize::MAX')],
+         proofs=[dict(at='start', ghost=True, text='let ghost t0 = self.ser.out.text(); let ghost first0 = self.first;'),
+                 dict(at='start', text='reveal_strlit(", "); reveal_strlit(": "); reveal_strlit(":");'),
+                 dict(before_re=r'return ser_value\(value, &mut \*self\.ser\);', label='C20:a_field_of_a_flow_struct_variant_is_written_as_key_colon_space_after_a_comma_unless_it_is_the_first',
+                      text="assert(self.ser.out.text() =~= t0 + (if first0 { Seq::<char>::empty() } else { seq![',', ' '] }) + text@ + seq![':', ' '] && !self.first);"),
+                 dict(before_re=r'let result = ser_value\(value, &mut \*self\.ser\);', label='C12:a_field_of_a_block_struct_variant_starts_at_the_column_of_the_variant_body_and_defers_the_space_after_its_colon',
+                      text='''assert(old(self).ser.at_line_start && old(self).ser.doc_started ==> self.ser.out.text() =~= t0 + spaces(old(self).ser.indent_step * old(self).depth) + text@ + seq![':']);
+                              assert(self.ser.pending_space_after_colon && !self.ser.at_line_start && self.ser.current_map_depth == Some(self.depth) && self.depth == old(self).depth);''')],
+         ensures=[('C12:after_a_field_the_enclosing_mapping_depth_is_restored', '!old(self).flow ==> final(self).ser.current_map_depth == old(self).ser.current_map_depth')],
+         canaries=['C12:after_a_field_the_enclosing_mapping_depth_is_restored']),
+    dict(src=SR, path='impl SerializeStructVariant for StructVariantSer/fn end', id='StructVariantSer::end#whole', props=['C20', 'C01'],
+         fragment=r'(?<=fn end\(self\) -> Result<\(\)> \{).*(?=\}\s*$)', fragment_flags='S',
+         wrapper="fn struct_variant_end_whole<'b>(ser: &mut YamlSerializer<'b>, flow: bool) -> Result<(), SerError> { {FRAG} }",
+         pre_rewrites=[(r'\bself\.ser\.', 'ser.', None, 'R9'), (r'\bself\.flow\b', 'flow', None, 'R9')],
+         proofs=[dict(at='start', text='reveal_strlit("}}");')],
+         ensures=[('C20:a_flow_struct_variant_closes_both_of_its_braces_and_a_block_one_writes_nothing_at_its_end',
+                   "r is Ok ==> final(ser).out.text() =~= (if flow { old(ser).out.text().push('}').push('}') } else { old(ser).out.text() })")],
+         canaries=['C20:a_flow_struct_variant_closes_both_of_its_braces_and_a_block_one_writes_nothing_at_its_end']),
 ]
